@@ -135,25 +135,27 @@ theorem movePairs_single_grow (p : DiffOpMove) :
 theorem movePairs_len_one (m : DiffOpMove) (h : m.len = 1) : movePairs [m] = [(m.from_, m.to_)] := by
   simp [movePairs, singles, h, List.range_succ]
 
-theorem groupLoop_pairs (ms : List DiffOpMove) : ∀ (prev : Option DiffOpMove) (out : List DiffOpMove),
+/-! #### before the repair -/
+
+theorem groupLoopOld_pairs (ms : List DiffOpMove) : ∀ (prev : Option DiffOpMove) (out : List DiffOpMove),
     (∀ m ∈ ms, m.len = 1) →
-    movePairs (groupLoop ms prev out)
+    movePairs (groupLoopOld ms prev out)
       = movePairs out ++ movePairs prev.toList ++ ms.map fun m => (m.from_, m.to_) := by
   induction ms with
   | nil =>
     intro prev out _
-    cases prev <;> simp [groupLoop, movePairs]
+    cases prev <;> simp [groupLoopOld, movePairs]
   | cons m ms ih =>
     intro prev out h1
     have hm := h1 m (by simp)
     have hms : ∀ m' ∈ ms, m'.len = 1 := fun m' h => h1 m' (by simp [h])
     cases prev with
     | none =>
-      simp only [groupLoop]
+      simp only [groupLoopOld]
       rw [ih _ _ hms]
       simp [movePairs, singles, hm, List.range_succ]
     | some p =>
-      simp only [groupLoop]
+      simp only [groupLoopOld]
       split
       · rename_i hc
         simp only [Bool.and_eq_true, beq_iff_eq] at hc
@@ -162,6 +164,87 @@ theorem groupLoop_pairs (ms : List DiffOpMove) : ∀ (prev : Option DiffOpMove) 
         simp
       · rw [ih _ _ hms]
         simp [movePairs_append, movePairs_len_one m hm]
+
+theorem groupLoopOld_len_pos (ms : List DiffOpMove) : ∀ (prev : Option DiffOpMove) (out : List DiffOpMove),
+    (∀ m ∈ ms, 1 ≤ m.len) → (∀ m ∈ prev.toList, 1 ≤ m.len) → (∀ m ∈ out, 1 ≤ m.len) →
+    ∀ m ∈ groupLoopOld ms prev out, 1 ≤ m.len := by
+  induction ms with
+  | nil =>
+    intro prev out _ hp ho
+    cases prev with
+    | none => simpa [groupLoopOld] using ho
+    | some p =>
+      simp only [groupLoopOld, List.mem_append, List.mem_singleton]
+      rintro m (h | rfl)
+      · exact ho m h
+      · exact hp _ (by simp)
+  | cons m ms ih =>
+    intro prev out h1 hp ho
+    have hms : ∀ m' ∈ ms, 1 ≤ m'.len := fun m' h => h1 m' (by simp [h])
+    cases prev with
+    | none =>
+      simp only [groupLoopOld]
+      exact ih _ _ hms (by simpa using h1 m (by simp)) ho
+    | some p =>
+      simp only [groupLoopOld]
+      split
+      · exact ih _ _ hms (by simp) ho
+      · refine ih _ _ hms (by simpa using h1 m (by simp)) ?_
+        simp only [List.mem_append, List.mem_singleton]
+        rintro m' (h | rfl)
+        · exact ho m' h
+        · exact hp _ (by simp)
+
+theorem groupOld_pairs (ms : List DiffOpMove) (h : ∀ m ∈ ms, m.len = 1) :
+    movePairs (groupAdjacentMovesOld ms) = ms.map fun m => (m.from_, m.to_) := by
+  rw [groupAdjacentMovesOld, groupLoopOld_pairs ms none [] h]
+  simp [movePairs]
+
+theorem groupOld_len_pos (ms : List DiffOpMove) (h : ∀ m ∈ ms, m.len = 1) :
+    ∀ m ∈ groupAdjacentMovesOld ms, 1 ≤ m.len :=
+  groupLoopOld_len_pos ms none [] (fun m hm => by simp [h m hm]) (by simp) (by simp)
+
+/-! #### after the repair -/
+
+theorem singles_grow (p m : DiffOpMove) (hm : m.len = 1) (h1 : m.from_ = p.from_ + p.len)
+    (h2 : m.to_ = p.to_ + p.len) (h3 : m.moveInDom = p.moveInDom) :
+    singles { p with len := p.len + 1 } = singles p ++ [m] := by
+  simp only [singles, List.range_succ, List.map_append, List.map_cons, List.map_nil]
+  congr 1
+  cases m
+  simp_all
+
+/-- grouping (after the repair) followed by splitting gives back the single moves, flags included -/
+theorem groupLoop_singles (ms : List DiffOpMove) : ∀ (prev : Option DiffOpMove) (out : List DiffOpMove),
+    (∀ m ∈ ms, m.len = 1) →
+    (groupLoop ms prev out).flatMap singles
+      = out.flatMap singles ++ prev.toList.flatMap singles ++ ms := by
+  induction ms with
+  | nil =>
+    intro prev out _
+    cases prev <;> simp [groupLoop]
+  | cons m ms ih =>
+    intro prev out h1
+    have hm := h1 m (by simp)
+    have hms : ∀ m' ∈ ms, m'.len = 1 := fun m' h => h1 m' (by simp [h])
+    cases prev with
+    | none =>
+      simp only [groupLoop]
+      rw [ih _ _ hms]
+      simp [singles_one m hm]
+      cases m; simp_all
+    | some p =>
+      simp only [groupLoop]
+      split
+      · rename_i hc
+        simp only [Bool.and_eq_true, beq_iff_eq] at hc
+        rw [ih _ _ hms]
+        simp only [Option.toList_some, List.flatMap_cons, List.flatMap_nil, List.append_nil,
+          singles_grow p m hm hc.1.1 hc.1.2 hc.2]
+        simp
+      · rw [ih _ _ hms]
+        simp [singles_one m hm]
+        cases m; simp_all
 
 theorem groupLoop_len_pos (ms : List DiffOpMove) : ∀ (prev : Option DiffOpMove) (out : List DiffOpMove),
     (∀ m ∈ ms, 1 ≤ m.len) → (∀ m ∈ prev.toList, 1 ≤ m.len) → (∀ m ∈ out, 1 ≤ m.len) →
@@ -193,10 +276,14 @@ theorem groupLoop_len_pos (ms : List DiffOpMove) : ∀ (prev : Option DiffOpMove
         · exact ho m' h
         · exact hp _ (by simp)
 
+theorem group_singles (ms : List DiffOpMove) (h : ∀ m ∈ ms, m.len = 1) :
+    (groupAdjacentMoves ms).flatMap singles = ms := by
+  rw [groupAdjacentMoves, groupLoop_singles ms none [] h]
+  simp
+
 theorem group_pairs (ms : List DiffOpMove) (h : ∀ m ∈ ms, m.len = 1) :
     movePairs (groupAdjacentMoves ms) = ms.map fun m => (m.from_, m.to_) := by
-  rw [groupAdjacentMoves, groupLoop_pairs ms none [] h]
-  simp [movePairs]
+  rw [movePairs, group_singles ms h]
 
 theorem group_len_pos (ms : List DiffOpMove) (h : ∀ m ∈ ms, m.len = 1) :
     ∀ m ∈ groupAdjacentMoves ms, 1 ≤ m.len :=
@@ -227,9 +314,11 @@ theorem contains_of_getElem? {l : List Key} {i : Nat} {k : Key} (h : l[i]? = som
   simp only [List.contains_iff_mem]
   exact List.mem_of_getElem? h
 
-theorem diffStep_removed (f t : List Key) (acc : DiffAcc) (i : Nat) :
-    (diffStep f t acc i).removed = acc.removed ++ (if isRem f t i then [i] else []) := by
-  unfold diffStep isRem
+/-! #### before the repair -/
+
+theorem diffStepOld_removed (f t : List Key) (acc : DiffAccOld) (i : Nat) :
+    (diffStepOld f t acc i).removed = acc.removed ++ (if isRem f t i then [i] else []) := by
+  unfold diffStepOld isRem
   cases hf : f[i]? with
   | none =>
     cases ht : t[i]? <;> simp
@@ -242,10 +331,10 @@ theorem diffStep_removed (f t : List Key) (acc : DiffAcc) (i : Nat) :
         simp [List.mem_of_getElem? ht]
       · simp [hk]; split <;> simp_all
 
-theorem diffStep_added (f t : List Key) (acc : DiffAcc) (i : Nat) :
-    (diffStep f t acc i).added
+theorem diffStepOld_added (f t : List Key) (acc : DiffAccOld) (i : Nat) :
+    (diffStepOld f t acc i).added
       = acc.added ++ (if isAdd f t i then [{ at_ := i, mode := .normal }] else []) := by
-  unfold diffStep isAdd
+  unfold diffStepOld isAdd
   cases hf : f[i]? with
   | none =>
     cases ht : t[i]? with
@@ -260,10 +349,10 @@ theorem diffStep_added (f t : List Key) (acc : DiffAcc) (i : Nat) :
         simp [List.mem_of_getElem? hf]
       · simp [hk]; split <;> simp_all
 
-theorem diffStep_moved (f t : List Key) (acc : DiffAcc) (i : Nat) :
-    ∃ b, (diffStep f t acc i).moved = acc.moved ++
+theorem diffStepOld_moved (f t : List Key) (acc : DiffAccOld) (i : Nat) :
+    ∃ b, (diffStepOld f t acc i).moved = acc.moved ++
       ((mvPair f t i).map fun p => ({ from_ := p.1, len := 1, to_ := p.2, moveInDom := b } : DiffOpMove)).toList := by
-  unfold diffStep mvPair
+  unfold diffStepOld mvPair
   cases hf : f[i]? with
   | none =>
     cases ht : t[i]? <;> simp
@@ -274,6 +363,96 @@ theorem diffStep_moved (f t : List Key) (acc : DiffAcc) (i : Nat) :
       | none => simp
       | some j => exact ⟨_, rfl⟩
     · simp [hne]
+
+/-- what the three vectors hold after the loop has run over `0..n` -/
+theorem diffFoldOld (f t : List Key) (n : Nat) :
+    let acc := (List.range n).foldl (diffStepOld f t) {}
+    acc.removed = (List.range n).filter (isRem f t) ∧
+    acc.added = ((List.range n).filter (isAdd f t)).map (fun i => { at_ := i, mode := .normal }) ∧
+    (acc.moved.map fun m => (m.from_, m.to_)) = (List.range n).filterMap (mvPair f t) ∧
+    ∀ m ∈ acc.moved, m.len = 1 := by
+  induction n with
+  | zero => simp
+  | succ n ih =>
+    simp only [List.range_succ, List.foldl_append, List.foldl_cons, List.foldl_nil]
+    obtain ⟨h1, h2, h3, h4⟩ := ih
+    refine ⟨?_, ?_, ?_, ?_⟩
+    · rw [diffStepOld_removed, h1]; simp [List.filter_append]; split <;> simp_all
+    · rw [diffStepOld_added, h2]; simp [List.filter_append]; split <;> simp_all
+    · obtain ⟨b, hb⟩ := diffStepOld_moved f t ((List.range n).foldl (diffStepOld f t) {}) n
+      rw [hb, List.map_append, h3, List.filterMap_append]
+      cases h : mvPair f t n <;> simp [h]
+    · obtain ⟨b, hb⟩ := diffStepOld_moved f t ((List.range n).foldl (diffStepOld f t) {}) n
+      rw [hb]
+      intro m hm
+      simp only [List.mem_append] at hm
+      rcases hm with hm | hm
+      · exact h4 m hm
+      · cases hp : mvPair f t n <;> simp [hp] at hm
+        subst hm; rfl
+
+/-! #### after the repair -/
+
+theorem diffStep_removed (f t : List Key) (acc : DiffAcc) (i : Nat) :
+    (diffStep f t acc i).removed = acc.removed ++ (if isRem f t i then [i] else []) := by
+  unfold diffStep isRem
+  cases hf : f[i]? with
+  | none =>
+    cases ht : t[i]? <;> simp
+  | some k =>
+    cases ht : t[i]? with
+    | none =>
+      simp only [show (some k == (none : Option Key)) = false from rfl]
+      cases List.idxOf? k t <;> simp <;> split <;> simp_all
+    | some k' =>
+      by_cases hk : k = k'
+      · subst hk
+        simp [List.mem_of_getElem? ht]
+      · have : (some k == some k') = false := by simp [hk]
+        simp only [this]
+        cases List.idxOf? k t <;> simp <;> split <;> simp_all
+
+theorem diffStep_added (f t : List Key) (acc : DiffAcc) (i : Nat) :
+    (diffStep f t acc i).added
+      = acc.added ++ (if isAdd f t i then [{ at_ := i, mode := .normal }] else []) := by
+  unfold diffStep isAdd
+  cases hf : f[i]? with
+  | none =>
+    cases ht : t[i]? with
+    | none => simp
+    | some k' =>
+      simp only [show ((none : Option Key) == some k') = false from rfl]
+      simp; split <;> simp_all
+  | some k =>
+    cases ht : t[i]? with
+    | none =>
+      simp only [show (some k == (none : Option Key)) = false from rfl]
+      cases List.idxOf? k t <;> simp
+    | some k' =>
+      by_cases hk : k = k'
+      · subst hk
+        simp [List.mem_of_getElem? hf]
+      · have : (some k == some k') = false := by simp [hk]
+        simp only [this]
+        cases List.idxOf? k t <;> simp <;> split <;> simp_all
+
+theorem diffStep_moved (f t : List Key) (acc : DiffAcc) (i : Nat) :
+    ∃ b, (diffStep f t acc i).moved = acc.moved ++
+      ((mvPair f t i).map fun p => ({ from_ := p.1, len := 1, to_ := p.2, moveInDom := b } : DiffOpMove)).toList := by
+  unfold diffStep mvPair
+  cases hf : f[i]? with
+  | none =>
+    cases ht : t[i]? <;> simp
+  | some k =>
+    by_cases hne : (some k == t[i]?) = true
+    · have : (some k != t[i]?) = false := by simp [bne, hne]
+      simp [hne, this]
+    · have hne' : (some k == t[i]?) = false := by simpa using hne
+      have : (some k != t[i]?) = true := by simp [bne, hne']
+      simp only [hne', this, if_true]
+      cases hi : List.idxOf? k t with
+      | none => simp
+      | some j => exact ⟨_, rfl⟩
 
 /-- what the three vectors hold after the loop has run over `0..n` -/
 theorem diffFold (f t : List Key) (n : Nat) :
@@ -301,5 +480,4 @@ theorem diffFold (f t : List Key) (n : Nat) :
       · exact h4 m hm
       · cases hp : mvPair f t n <;> simp [hp] at hm
         subst hm; rfl
-
 end Leptos.Keyed
